@@ -5,7 +5,7 @@ from .modelchecks import ModelCheck
 class C02(ModelCheck):
     id = "C02"
     profile = "fanout"
-    profiles = ['fanout', 'fanout', 'mixed']
+    profiles = ['fanout', 'fanout', 'mixed', 'shared']
     usage_mode = "any"
     nt_rule = staticmethod(lambda ev: ev.get("add_two_subscribers_after_sweep"))
     rule = "Histories from profile fanout/mixed (2-6 connections of <=3 sides on few mailboxes, two connections of one side, drops, closes, sweeps, restarts, bind-then-sweep-then-open orders, adds with a forged side key). For every add: each subscribed connection (model: successful open until close/drop/deletion) receives exactly one message frame with the command's phase/body/id and the adder's bind side, every other connection receives nothing. Non-trivial = a history with an add delivered to >=2 subscribers of which one subscribed after a sweep or restart; distinct by hash of (config, script)."
